@@ -438,3 +438,35 @@ func eqIntOnEdge(u *core.Unit, f core.Fact) (int64, bool) {
 	}
 	return 0, false
 }
+
+// lenNonEmpty is the guard "len(e) > 0" for an e accepted by match, in any of
+// its spellings (> 0, >= 1, != 0, 0 <, and the negations on the other edge).
+func lenNonEmpty(match func(u *core.Unit, e ast.Expr) bool) core.Guard {
+	return func(u *core.Unit, br core.Branch) int {
+		cmp, ok := u.BranchCmp(br)
+		if !ok || cmp.Val == nil {
+			return 0
+		}
+		ce, isC := ast.Unparen(cmp.X).(*ast.CallExpr)
+		if !isC || len(ce.Args) != 1 {
+			return 0
+		}
+		if id, isI := ce.Fun.(*ast.Ident); !isI || id.Name != "len" {
+			return 0
+		}
+		if !match(u, ce.Args[0]) {
+			return 0
+		}
+		v, exact := constant.Int64Val(constant.ToInt(cmp.Val))
+		if !exact {
+			return 0
+		}
+		switch {
+		case cmp.Op == token.GTR && v == 0, cmp.Op == token.GEQ && v == 1, cmp.Op == token.NEQ && v == 0:
+			return 1
+		case cmp.Op == token.EQL && v == 0, cmp.Op == token.LEQ && v == 0, cmp.Op == token.LSS && v == 1:
+			return -1
+		}
+		return 0
+	}
+}
